@@ -34,6 +34,7 @@ type genType struct {
 	Zero      map[string]string // Go zero literal per schema field
 	RepBytes  []string          // repeated bytes fields
 	StrPtrs   []string          // optional string fields held by pointer (proto2 / proto3 optional)
+	Tags      []string // field numbers the generated Unmarshal dispatches on (schema fields, oneof members, extensions)
 	MsgExts   []string // extension descriptors whose value Size() passes to csproto.Size (message-typed extensions)
 	HasUnmarshal bool
 }
@@ -117,6 +118,7 @@ func scanGenTypes(files map[string][]byte) (string, []*genType, error) {
 	has := map[string]map[string]bool{}
 	structs := map[string]*ast.StructType{}
 	exts := map[string][]string{}
+	tags := map[string][]string{}
 	var names []string
 	for n := range files {
 		names = append(names, n)
@@ -142,6 +144,9 @@ func scanGenTypes(files map[string][]byte) (string, []*genType, error) {
 						has[id.Name][v.Name.Name] = true
 						if v.Name.Name == "Size" && v.Body != nil {
 							exts[id.Name] = msgExtsOf(v.Body)
+						}
+						if v.Name.Name == "Unmarshal" && v.Body != nil {
+							tags[id.Name] = switchTagsOf(v.Body)
 						}
 					}
 				}
@@ -170,7 +175,7 @@ func scanGenTypes(files map[string][]byte) (string, []*genType, error) {
 		if st == nil {
 			continue
 		}
-		g := &genType{Name: t, HasUnmarshal: has[t]["Unmarshal"], MsgExts: exts[t]}
+		g := &genType{Name: t, HasUnmarshal: has[t]["Unmarshal"], MsgExts: exts[t], Tags: tags[t]}
 		for _, f := range st.Fields.List {
 			for _, fn := range f.Names {
 				switch fn.Name {
@@ -230,6 +235,34 @@ func scanGenTypes(files map[string][]byte) (string, []*genType, error) {
 		out = append(out, g)
 	}
 	return pkgName, out, nil
+}
+
+// switchTagsOf: the integer case labels of `switch tag { ... }` in a generated Unmarshal.
+func switchTagsOf(body *ast.BlockStmt) []string {
+	var out []string
+	ast.Inspect(body, func(n ast.Node) bool {
+		sw, ok := n.(*ast.SwitchStmt)
+		if !ok {
+			return true
+		}
+		id, ok := sw.Tag.(*ast.Ident)
+		if !ok || id.Name != "tag" {
+			return true
+		}
+		for _, st := range sw.Body.List {
+			cc, ok := st.(*ast.CaseClause)
+			if !ok {
+				continue
+			}
+			for _, e := range cc.List {
+				if bl, ok := e.(*ast.BasicLit); ok && bl.Kind == token.INT {
+					out = append(out, bl.Value)
+				}
+			}
+		}
+		return false
+	})
+	return out
 }
 
 // zeroLit: the Go zero literal of a generated message field's type.
@@ -393,7 +426,18 @@ func lemma_c09_%[1]s(m *%[1]s, src *%[1]s, c int32) {
 	s2 := m.Size()
 	gocv_assert(s1 == s2, "size-independent-of-cache")
 }
+
+func lemma_c09s_%[1]s(m *%[1]s, src *%[1]s) {
+	gocv_assume(m != nil && src != nil && m != src)
+	var z %[1]s
+	*m = z
+%[3]s	s1 := m.Size() // computes and stores the cache
+	gocv_assume(int(int32(s1)) == s1) // protobuf: a message is smaller than 2 GiB
+	s2 := m.Size() // nothing was mutated in between: the stored value must be the size
+	gocv_assert(s1 == s2, "size-stable-without-mutation")
+}
 `, t.Name, t.Cache, pre)
+		fmt.Fprintf(&c, "\n//@ func lemma_c09s_%s(m *%s, src *%s)\n//@   harness\n//@   inlines Size\n//@   abstracts vlen\n//@   bounded %d every field zero except proto2 required fields (arbitrary)\n", t.Name, t.Name, t.Name, listBound+1)
 		fmt.Fprintf(&c, "\n//@ func lemma_c09_%s(m *%s, src *%s, c int32)\n//@   harness\n//@   inlines Size\n//@   abstracts vlen\n//@   bounded %d every field zero except proto2 required fields (arbitrary); the size cache arbitrary\n", t.Name, t.Name, t.Name, listBound+1)
 	}
 	// C17 (marshal direction): a message with an unset required field is rejected.
@@ -404,6 +448,10 @@ func lemma_c09_%[1]s(m *%[1]s, src *%[1]s, c int32) {
 		exts := ""
 		for _, e := range t.MsgExts {
 			exts += fmt.Sprintf("\tif v := gocv_extSlot(m, %s).val; v != nil {\n\t\t_, ok := v.(csproto.Sizer)\n\t\tgocv_assume(ok)\n\t}\n", e)
+		}
+		cacheReset := ""
+		if t.Cache != "" {
+			cacheReset = fmt.Sprintf("\tm.%s = 0 // as in a fresh copy: Marshal computes the size itself\n", t.Cache)
 		}
 		variants := append([]string{"none"}, t.Required...)
 		for _, miss := range variants {
@@ -422,15 +470,15 @@ func lemma_c17_%[1]s_%[2]s(m *%[1]s, src *%[1]s) {
 	gocv_assume(m != nil && src != nil && m != src)
 	var z %[1]s
 	*m = z
-%[3]s%[4]s	_, err := m.Marshal()
-	gocv_assert(err != nil, "marshal-rejects-missing-required")
-	sz := m.Size()
-	gocv_assume(int(int32(sz)) == sz)
+%[3]s%[4]s	sz := m.Size()
+	gocv_assume(int(int32(sz)) == sz) // protobuf: a message is smaller than 2 GiB
 	buf := make([]byte, sz)
 	err2 := m.MarshalTo(buf)
 	gocv_assert(err2 != nil, "marshalto-rejects-missing-required")
+%[5]s	_, err := m.Marshal()
+	gocv_assert(err != nil, "marshal-rejects-missing-required")
 }
-`, t.Name, miss, pre, exts)
+`, t.Name, miss, pre, exts, cacheReset)
 			fmt.Fprintf(&c, "\n//@ func lemma_c17_%s_%s(m *%s, src *%s)\n//@   harness\n//@   inlines Size, MarshalTo, Marshal\n//@   abstracts vlen\n//@   bounded %d %s; every other field zero\n", t.Name, miss, t.Name, t.Name, listBound+1, what)
 		}
 		// converse: all required fields set (scalar ones), nothing else: no error
@@ -480,14 +528,114 @@ func lemma_c17_%[1]s_all(m *%[1]s, src *%[1]s) {
 		}
 		fmt.Fprintf(&c, "//@   modifies *x\n")
 
+		outer := unmarshalFields
+		if len(t.Maps) > 4 {
+			outer = 1 // a message of many map fields: one top-level field (each entry loop is still followed in full)
+		}
 		fmt.Fprintf(&h, `
 func lemma_c08_%[1]s(m *%[1]s, p []byte) {
 	gocv_assume(m != nil)
 	_ = m.Unmarshal(p)
 }
 `, t.Name)
-		fmt.Fprintf(&c, "\n//@ func lemma_c08_%s(m *%s, p []byte)\n//@   harness\n//@   inlines Unmarshal\n//@   bounded %d inputs with at most %d top-level fields (arbitrary bytes otherwise); the destination arbitrary\n", t.Name, t.Name, unmarshalFields, unmarshalFields)
+		fmt.Fprintf(&c, "\n//@ func lemma_c08_%s(m *%s, p []byte)\n//@   harness\n//@   inlines Unmarshal\n//@   cuts\n//@   outer %d\n//@   bounded %d inputs with at most %d top-level fields (arbitrary bytes otherwise); the destination arbitrary\n", t.Name, t.Name, outer, unmarshalFields, outer)
 
+		// C17, decode direction
+		if len(t.Required) > 0 {
+			var as strings.Builder
+			for _, r := range t.Required {
+				fmt.Fprintf(&as, "\tgocv_assert(m.%[1]s != nil, \"unmarshal-rejects-missing-%[1]s\")\n", r)
+			}
+			fmt.Fprintf(&h, `
+func lemma_c17u_%[1]s(m *%[1]s, p []byte) {
+	gocv_assume(m != nil)
+	err := m.Unmarshal(p)
+	if err != nil {
+		return
+	}
+%[2]s}
+`, t.Name, as.String())
+			fmt.Fprintf(&c, "\n//@ func lemma_c17u_%s(m *%s, p []byte)\n//@   harness\n//@   inlines Unmarshal, csprotoCheckRequiredFields\n//@   cuts\n//@   outer %d\n//@   bounded %d arbitrary input (the empty input included) followed through at most %d top-level fields\n", t.Name, t.Name, outer, len(t.Required)+2, outer)
+		}
+		// C07
+		if t.Unknown != "" {
+			accepted := "\tgocv_assert(err == nil, \"unknown-field-accepted\")\n"
+			if len(t.Required) > 0 {
+				// the input lacks the required fields: the required-field error is the right answer
+				accepted = "\t_ = err\n"
+			}
+			notKnown := "true"
+			for _, n := range t.Tags {
+				notKnown += " && num != " + n
+			}
+			fmt.Fprintf(&h, `
+func lemma_c07u_%[1]s(m *%[1]s, p []byte, num int, wt csproto.WireType) {
+	gocv_assume(m != nil)
+	gocv_assume(csproto.GocvKeyAt(p, 0, num, wt)) // p starts with the minimally encoded key of (num, wt)
+	gocv_assume(fieldStrict(p, 0) && fieldEnd(p, 0) == len(p)) // ... and is exactly one well-formed field
+	gocv_assume(%[3]s) // ... whose number the schema does not define
+	lemma_varint_inverse(p, 0, keyOf(num, int(wt)))
+	gocv_assert(varintStrict(p, 0) && varintLen(p, 0) == vlen(keyOf(num, int(wt))) && varintVal(p, 0) == keyOf(num, int(wt)), "key-shape")
+	gocv_assert(int(varintVal(p, 0)>>3) == num && int(varintVal(p, 0)&7) == int(wt), "key-fields")
+	err := m.Unmarshal(p)
+%[4]s	gocv_assert(len(m.%[2]s) == len(p) && gocv_prefixEq(m.%[2]s, p, len(p)), "unknown-field-retained")
+}
+`, t.Name, t.Unknown, notKnown, accepted)
+			fmt.Fprintf(&c, "\n//@ func lemma_c07u_%s(m *%s, p []byte, num int, wt csproto.WireType)\n//@   harness\n//@   inlines Unmarshal\n//@   cuts\n//@   outer 1\n//@   bounded %d the input is exactly one well-formed field with a minimally encoded key and a number outside the schema\n", t.Name, t.Name, unmarshalFields)
+			if len(t.Fields) <= 4 && len(t.Maps) == 0 {
+				// two unknown fields in a row (small types only: the branch is the same template text for every type)
+				nk2 := strings.ReplaceAll(notKnown, "num", "n1") + " && " + strings.ReplaceAll(notKnown, "num", "n2")
+				fmt.Fprintf(&h, `
+func lemma_c07v_%[1]s(m *%[1]s, p []byte, n1 int, w1 csproto.WireType, n2 int, w2 csproto.WireType) {
+	gocv_assume(m != nil)
+	gocv_assume(csproto.GocvKeyAt(p, 0, n1, w1) && fieldStrict(p, 0))
+	e := fieldEnd(p, 0)
+	gocv_assume(e < len(p) && csproto.GocvKeyAt(p, e, n2, w2) && fieldStrict(p, e) && fieldEnd(p, e) == len(p))
+	gocv_assume(%[3]s)
+	lemma_varint_inverse(p, 0, keyOf(n1, int(w1)))
+	gocv_assert(varintStrict(p, 0) && varintLen(p, 0) == vlen(keyOf(n1, int(w1))) && varintVal(p, 0) == keyOf(n1, int(w1)), "key-shape-1")
+	gocv_assert(int(varintVal(p, 0)>>3) == n1 && int(varintVal(p, 0)&7) == int(w1), "key-fields-1")
+	lemma_varint_inverse(p, e, keyOf(n2, int(w2)))
+	gocv_assert(varintStrict(p, e) && varintLen(p, e) == vlen(keyOf(n2, int(w2))) && varintVal(p, e) == keyOf(n2, int(w2)), "key-shape-2")
+	gocv_assert(int(varintVal(p, e)>>3) == n2 && int(varintVal(p, e)&7) == int(w2), "key-fields-2")
+	err := m.Unmarshal(p)
+%[4]s	gocv_assert(len(m.%[2]s) == len(p), "both-unknown-fields-retained")
+	gocv_assert(gocv_prefixEq(m.%[2]s, p, len(p)), "unknown-fields-retained-in-order")
+}
+`, t.Name, t.Unknown, nk2, accepted)
+				fmt.Fprintf(&c, "\n//@ func lemma_c07v_%s(m *%s, p []byte, n1 int, w1 csproto.WireType, n2 int, w2 csproto.WireType)\n//@   harness\n//@   inlines Unmarshal\n//@   cuts\n//@   outer 2\n//@   bounded %d the input is exactly two well-formed fields with minimally encoded keys and numbers outside the schema\n", t.Name, t.Name, unmarshalFields)
+			}
+			pre := ""
+			for _, r := range t.Required {
+				pre += fmt.Sprintf("\tm.%[1]s = src.%[1]s\n", r)
+			}
+			for _, e := range t.MsgExts {
+				pre += fmt.Sprintf("\tif v := gocv_extSlot(m, %s).val; v != nil {\n\t\t_, ok := v.(csproto.Sizer)\n\t\tgocv_assume(ok)\n\t}\n", e)
+			}
+			reset := ""
+			if t.Cache != "" {
+				reset = fmt.Sprintf("\tm.%s = 0\n", t.Cache)
+			}
+			fmt.Fprintf(&h, `
+func lemma_c07m_%[1]s(m *%[1]s, src *%[1]s, u []byte) {
+	gocv_assume(m != nil && src != nil && m != src)
+	var z %[1]s
+	*m = z
+%[3]s	s0 := m.Size()
+%[4]s	m.%[2]s = u
+	s1 := m.Size()
+	gocv_assume(int(int32(s1)) == s1) // protobuf: a message is smaller than 2 GiB
+	gocv_assert(s1 == s0+len(u), "size-accounts-for-unknown-fields")
+	buf := make([]byte, s1)
+	err := m.MarshalTo(buf)
+	if err == nil {
+		gocv_assert(csproto.GocvEncoderOffset(gocv_lastEncoder()) == len(buf), "filled-exactly")
+		gocv_assert(gocv_prefixEq(buf[s0:], u, len(u)), "unknown-fields-re-emitted-verbatim")
+	}
+}
+`, t.Name, t.Unknown, pre, reset)
+			fmt.Fprintf(&c, "\n//@ func lemma_c07m_%s(m *%s, src *%s, u []byte)\n//@   harness\n//@   inlines Size, MarshalTo\n//@   abstracts vlen\n//@   bounded %d every schema field zero except proto2 required fields (arbitrary); the unknown-field bytes arbitrary\n", t.Name, t.Name, t.Name, listBound+1)
+		}
 		// C10
 		var al strings.Builder
 		for _, f := range t.Bytes {
@@ -515,7 +663,7 @@ func lemma_c10_%[1]s(m *%[1]s, p []byte) {
 	}
 %[2]s}
 `, t.Name, al.String())
-			fmt.Fprintf(&c, "\n//@ func lemma_c10_%s(m *%s, p []byte)\n//@   harness\n//@   inlines Unmarshal\n//@   bounded %d inputs with at most %d top-level fields; string, bytes, first repeated-bytes element and unknown-field storage checked\n", t.Name, t.Name, unmarshalFields, unmarshalFields)
+			fmt.Fprintf(&c, "\n//@ func lemma_c10_%s(m *%s, p []byte)\n//@   harness\n//@   inlines Unmarshal\n//@   cuts\n//@   outer %d\n//@   bounded %d inputs with at most %d top-level fields; string, bytes, first repeated-bytes element and unknown-field storage checked\n", t.Name, t.Name, outer, unmarshalFields, outer)
 		}
 	}
 	return h.String(), c.String()
